@@ -10,3 +10,8 @@ def run(ctx):
     for i in range(n):
         s = Subject(ctx)
         ops_arrow.case_interchange(ctx, s)
+        if i % 4 == 2:
+            # the same after rows were replaced / made missing in place
+            s2 = Subject(ctx, allow_hidden=False)
+            if ops_arrow.array_prehistory(ctx, s2):
+                ops_arrow.case_interchange(ctx, s2)
